@@ -4,6 +4,7 @@
 package regex
 
 import (
+	"math"
 	"strings"
 
 	"slices"
@@ -143,6 +144,10 @@ func (co *compiler) compile2() Pattern {
 			co.prog = slices.Insert(co.prog, 0, byte(opPrefix),
 				byte(len(literal)))
 			co.prog = slices.Insert(co.prog, 2, literal...)
+		}
+		// jump offsets and the matcher's program counter are int16
+		if len(co.prog) > math.MaxInt16 {
+			panic("regex: pattern too large")
 		}
 	}
 	return Pattern(hacks.BStoS(co.prog))
